@@ -219,6 +219,29 @@ func (ex *Exec) harnessAPI(fr *frame, name string, args []Value) (Value, bool) {
 	case "vMetricL":
 		nm := ex.concStr(args[0], "vMetricL name")
 		return ex.metricLabelled(nm, args[1]), true
+	case "vUDPConn":
+		p := new(Value)
+		*p = ex.zero(ex.eng.namedType("net", "UDPConn", false))
+		ex.udp = &udpState{}
+		return p, true
+	case "vScriptReply":
+		if ex.udp == nil {
+			ex.udp = &udpState{}
+		}
+		ex.udp.kind = ex.concInt(args[0], "reply kind")
+		ex.udp.delay = ex.tt.Resize(args[1].(*Term), 64, true)
+		ex.udp.payload = ex.sliceTerms(args[2])
+		return nil, true
+	case "vInstant":
+		return ex.clockTime(ex.tt.Resize(args[0].(*Term), 64, true)), true
+	case "vWatchdog":
+		ex.watchdogLabel = ex.concStr(args[1], "watchdog label")
+		return nil, true
+	case "vWatchdogStop":
+		ex.watchdogLabel = ""
+		return nil, true
+	case "vBlockedForever":
+		return tt.Bool(ex.blockedForever), true
 	case "vClockStart":
 		ex.clock = tt.BV(64, 0)
 		return nil, true
@@ -603,6 +626,27 @@ func init() {
 			res = tt.Ite(tt.Eq(bs[i], c), tt.BV(64, uint64(i)), res)
 		}
 		return res
+	}
+	stubTable["errors.Is"] = func(ex *Exec, fr *frame, args []Value) Value {
+		err, target := args[0], args[1]
+		for depth := 0; depth < 8; depth++ {
+			ei, ok := err.(Iface)
+			if !ok || ei.t == nil {
+				return ex.tt.Bool(false)
+			}
+			if ex.branch(ex.equalLoose(err, target)) {
+				return ex.tt.Bool(true)
+			}
+			if _, stub := ei.v.(StubObject); stub {
+				return ex.tt.Bool(false)
+			}
+			m := ex.eng.prog.LookupMethod(ei.t, nil, "Unwrap")
+			if m == nil || m.Signature.Results().Len() != 1 {
+				return ex.tt.Bool(false)
+			}
+			err = ex.callFunction(fr, m, []Value{ei.v}, nil, 0)
+		}
+		return ex.tt.Bool(false)
 	}
 	stubTable["bytes.IndexByte"] = indexByte
 	stubTable["strings.IndexByte"] = indexByte
